@@ -1,14 +1,233 @@
 // C16: hexahedral kernel -- shape, XF/XB/YF/YB/ZF/ZB halfface order, orientation helpers, hex navigation, hex iterators.
+// Oracles (c16_hex.h) are brute force over the stored top-down definitions.  Mutating calls get concrete arguments chosen by a
+// symbolic selector (dispatch) and the shard parameters; probes of the read-only queries are symbolic where the code under test
+// does not sort / copy containers of probe-dependent shape, enumerated otherwise.
 #include "ops.h"
 #include "c16_hex.h"
 
 // ---------------------------------------------------------------------------------------------------------------------
-// (1) bases built through the hexahedral kernel (add_cell(halffaces,true) with a list that needs re-ordering, and
-//     add_cell(8 vertices)), full oracle.   param 0 = base
+// (1) bases built through the hexahedral kernel (add_cell(halffaces,true) with a list that needs re-ordering; add_cell(8 vertices)).
+//     param 0 = base, 1 = oracle parts mask, 2 = first reference halfface, 3 = number of reference halffaces (navigation / sheet shards)
 extern "C" void harness_c16_base() {
   HexK m;
   build_hex_base(m, v_param(0));
   if (m.n_cells() != (v_param(0) == HB_HEX ? 1u : v_param(0) == HB_SHEET ? 4u : 2u)) return;   // base not built: witness unreachable
-  check_hex_all(m, v_param(1));
+  check_hex_all(m, v_param(1), (int)v_param(2), (int)(v_param(2) + v_param(3)));
   v_witness("C16 base end");
+}
+
+// ---------------------------------------------------------------------------------------------------------------------
+// (2) add_cell(PERMUTED valid halfface list, topologyCheck = true): reorders to the convention or rejects leaving the mesh unchanged.
+//     param 0 = variant (0: the hex on bare faces; 1: second hex of the two-hex base, shared face pre-exists, first cell present)
+//     param 1 = permutation family (0: rotation r x transposition t, idx = 16 r + t; 1: all 720, idx = Lehmer code), param 2 = chunk,
+//     param 3 = cases per query (selector range)
+enum { PERM_CASES = 4 };
+static inline unsigned perm_cases() { unsigned n = v_param(3); return (n >= 1 && n <= PERM_CASES) ? n : PERM_CASES; }   // param 3 = cases per query
+static const int TRANSP[16][2] = {{0, 0}, {0, 1}, {0, 2}, {2, 3}, {1, 2}, {0, 3}, {0, 4}, {0, 5}, {1, 3}, {1, 4}, {1, 5}, {2, 4}, {2, 5}, {3, 4}, {3, 5}, {4, 5}};
+
+static void decode_perm(unsigned family, unsigned idx, int *p) {
+  if (family == 0) {
+    unsigned r = (idx / 16) % 6, t = idx % 16;
+    for (int j = 0; j < 6; ++j) p[j] = (int)((j + r) % 6);
+    int a = TRANSP[t][0], b = TRANSP[t][1], x = p[a]; p[a] = p[b]; p[b] = x;
+  } else {
+    int pool[6] = {0, 1, 2, 3, 4, 5}; unsigned rem = idx % 720, f = 120;
+    for (int j = 0; j < 6; ++j) {
+      unsigned d = rem / f; rem %= f; if (j < 5) f /= (unsigned)(5 - j);
+      p[j] = pool[d];
+      for (int k = (int)d; k < 5; ++k) pool[k] = pool[k + 1];
+    }
+  }
+}
+
+static __attribute__((noinline)) void perm_case(unsigned i) {
+  unsigned variant = v_param(0), family = v_param(1), idx = v_param(2) * perm_cases() + i;
+  if (idx >= (family == 0 ? 96u : 720u)) return;
+  int p[6]; decode_perm(family, idx, p);
+  HexK m;
+  m.add_n_vertices(variant == 0 ? 8 : 12);
+  hex_faces(m);
+  std::vector<HFH> base = hex_list0();
+  if (variant == 1) {
+    if (!m.add_cell(hex_list0(), true).is_valid()) return;
+    hex2_faces(m);
+    base = hex_list1();
+  }
+  std::vector<HFH> lst; lst.reserve(6);
+  for (int j = 0; j < 6; ++j) lst.push_back(base[(size_t)p[j]]);
+  Snap before; take_snapshot(m, before);
+  CH ch = m.add_cell(lst, true);
+  Snap after; take_snapshot(m, after);
+  if (!ch.is_valid()) {
+    v_assert(snap_equal(before, after), "C16 rejected add_cell(halffaces, true) leaves the mesh unchanged");
+  } else {
+    // accepted: exactly one cell appended, made of exactly the given halffaces; nothing else changed
+    v_assert(ch.idx() == before.nC && after.nC == before.nC + 1, "C16 accepted add_cell appends exactly one cell and returns its handle");
+    after.nC = before.nC;
+    v_assert(snap_equal(before, after), "C16 accepted add_cell changes nothing but the new cell");
+    after.nC = before.nC + 1;
+    bool same_set = after.cval[before.nC] == 6;
+    for (int j = 0; j < 6; ++j) { int cnt = 0; for (int k = 0; k < 6; ++k) if (after.chf[before.nC][k] == base[(size_t)j].idx()) ++cnt; if (cnt != 1) same_set = false; }
+    v_assert(same_set, "C16 accepted add_cell stores a re-ordering of exactly the given six halffaces");
+    check_hex_all(m, P_CONV | P_ORI | P_HV);
+    v_witness("C16 perm accepted");
+  }
+  v_witness("C16 perm case end");
+}
+template <unsigned I> struct PermCase { static __attribute__((noinline)) void run() { perm_case(I); } };
+extern "C" void harness_c16_perm() {
+  unsigned sel = v_nondet_below(perm_cases());
+  dispatch<PermCase, PERM_CASES>(sel);
+}
+
+// ---------------------------------------------------------------------------------------------------------------------
+// (3) rejected constructions: wrong valence, non-quad face in the list, flipped / duplicated halfface -> invalid handle, mesh unchanged
+//     param 0 = chunk
+enum { REJ_CASES = 5, N_REJ = 15 };
+static __attribute__((noinline)) void rej_case(unsigned i) {
+  unsigned idx = v_param(0) * REJ_CASES + i;
+  if (idx >= N_REJ) return;
+  HexK m;
+  m.add_n_vertices(9);
+  hex_faces(m);
+  FH tri = FH(-1);
+  if (idx == 3) {   // a triangle can only enter through the (non-virtual) base-class call
+    EH a = m.add_edge(VH(1), VH(8)), b = m.add_edge(VH(8), VH(0));
+    tri = m.TopologyKernel::add_face(vec3(HEH(0), a.halfedge_handle(0), b.halfedge_handle(0)), true);
+    if (!tri.is_valid()) return;
+  }
+  std::vector<HFH> l = hex_list0();
+  Snap before; take_snapshot(m, before);
+  bool valid = true;
+  switch (idx) {
+  case 0: l.pop_back(); valid = m.add_cell(l, true).is_valid(); break;                            // 5 halffaces, check on
+  case 1: l.push_back(hf(FH(0), 0)); valid = m.add_cell(l, true).is_valid(); break;                // 7 halffaces
+  case 2: l.pop_back(); valid = m.add_cell(l, false).is_valid(); break;                           // 5 halffaces, check off
+  case 3: l[5] = hf(tri, 0); valid = m.add_cell(l, true).is_valid(); break;                       // a face of valence 3 among the six
+  case 4: l[1] = hf(FH(1), 0); valid = m.add_cell(l, true).is_valid(); break;                     // second halfface flipped (not closed)
+  case 5: l[0] = hf(FH(0), 0); valid = m.add_cell(l, true).is_valid(); break;                     // first halfface flipped
+  case 6: l[3] = hf(FH(3), 0); valid = m.add_cell(l, true).is_valid(); break;                     // a side halfface flipped
+  case 7: l[5] = l[4]; valid = m.add_cell(l, true).is_valid(); break;                             // duplicate halfface, one face missing
+  case 8: valid = m.add_face(vec3(VH(0), VH(1), VH(8))).is_valid(); break;                        // add_face(3 vertices)
+  case 9: valid = m.add_face(vec5(VH(0), VH(1), VH(5), VH(8), VH(4))).is_valid(); break;          // add_face(5 vertices)
+  case 10: valid = m.add_face(vec3(HEH(0), HEH(2), HEH(4)), false).is_valid(); break;             // add_face(3 halfedges), check off
+  case 11: valid = m.add_face(vec5(HEH(0), HEH(2), HEH(4), HEH(6), HEH(0)), false).is_valid(); break;  // add_face(5 halfedges)
+  case 12: valid = m.add_face(vec4(HEH(0), HEH(2), HEH(4), HEH(7)), true).is_valid(); break;      // 4 halfedges, not a closed loop, check on
+  case 13: { std::vector<VH> v = vec8(0, 1, 2, 3, 4, 7, 6, 5); v.pop_back(); valid = m.add_cell(v, true).is_valid(); break; }   // 7 vertices
+  case 14: l[4] = hf(FH(4), 0); l[5] = hf(FH(5), 0); valid = m.add_cell(l, true).is_valid(); break;  // two side halffaces flipped
+  default: break;
+  }
+  Snap after; take_snapshot(m, after);
+  v_assert(!valid, "C16 add_face/add_cell with wrong valence or failing topology check returns an invalid handle");
+  v_assert(snap_equal(before, after), "C16 rejected add_face/add_cell leaves the mesh unchanged");
+  v_witness("C16 reject case end");
+}
+template <unsigned I> struct RejCase { static __attribute__((noinline)) void run() { rej_case(I); } };
+extern "C" void harness_c16_reject() {
+  unsigned sel = v_nondet_below(REJ_CASES);
+  dispatch<RejCase, REJ_CASES>(sel);
+}
+
+// ---------------------------------------------------------------------------------------------------------------------
+// (4) add_cell(8 vertices): first hex on documented positions 0..7, second hex glued onto face g of the first one such that the shared
+//     face is the second hex's local face L in rotation rot (idx = 4 L + rot, 24 cases); idx 24,25: all six faces pre-exist (B_HEX
+//     layout, built by add_face).   param 0 = g, 1 = topologyCheck, 2 = chunk
+enum { VERT_CASES = 4, N_VERT = 26 };
+static __attribute__((noinline)) void vert_case(unsigned i) {
+  unsigned g = v_param(0) % 6, chk = v_param(1), idx = v_param(2) * VERT_CASES + i;
+  if (idx >= N_VERT) return;
+  HexK m;
+  if (idx >= 24) {
+    m.add_n_vertices(8);
+    hex_faces(m);
+    int v[8] = {0, 1, 2, 3, 4, 7, 6, 5};
+    if (idx == 25) { int w[8] = {1, 2, 3, 0, 5, 4, 7, 6}; for (int k = 0; k < 8; ++k) v[k] = w[k]; }   // the same hex, rotated about its first axis
+    CH ch = m.add_cell(vec8(v[0], v[1], v[2], v[3], v[4], v[5], v[6], v[7]), chk != 0);
+    if (!ch.is_valid()) return;
+    HSnap s; hs_take(m, s);
+    v_assert(s.nV == 8 && s.nE == 12 && s.nF == 6 && s.nC == 1, "C16 add_cell(vertices) on six pre-existing faces creates no face or edge");
+    check_no_duplicates(s);
+    check_hex_all(m, P_CONV | P_ORI | P_HV);
+    check_hv_matches_input(m, 0, v);
+    v_witness("C16 vertices-on-existing-faces case end");
+    return;
+  }
+  unsigned L = idx / 4, rot = idx % 4;
+  m.add_n_vertices(12);
+  CH c0 = m.add_cell(vec8(0, 1, 2, 3, 4, 5, 6, 7), chk != 0);   // documented position k = vertex k
+  if (!c0.is_valid()) return;
+  // face g of the first hex as listed by its cell: DOC_FACE[g]; the second hex sees it from the other side: reversed
+  int opp[4]; for (int j = 0; j < 4; ++j) opp[j] = DOC_FACE[g][3 - j];
+  int v[8]; for (int k = 0; k < 8; ++k) v[k] = -1;
+  for (int j = 0; j < 4; ++j) v[DOC_FACE[L][j]] = opp[(j + rot) % 4];
+  for (int q = 0; q < 8; ++q) {
+    if (v[q] >= 0) continue;
+    for (int e = 0; e < 12; ++e) for (int j = 0; j < 4; ++j) {
+      if (DOC_EDGE[e][0] == q && DOC_EDGE[e][1] == DOC_FACE[L][j]) v[q] = 8 + j;
+      if (DOC_EDGE[e][1] == q && DOC_EDGE[e][0] == DOC_FACE[L][j]) v[q] = 8 + j;
+    }
+  }
+  CH c1 = m.add_cell(vec8(v[0], v[1], v[2], v[3], v[4], v[5], v[6], v[7]), chk != 0);
+  if (!c1.is_valid()) return;
+  HSnap s; hs_take(m, s);
+  v_assert(s.nV == 12 && s.nE == 20 && s.nF == 11 && s.nC == 2, "C16 add_cell(vertices) next to an existing hex creates exactly the 5 missing faces and 8 missing edges");
+  check_no_duplicates(s);
+  v_assert(hs_pos_in_cell(s, 1, s.chf[0][g] ^ 1) == (int)L, "C16 add_cell(vertices) reuses the existing face: its opposite halfface sits at the matching position of the new cell");
+  check_hex_all(m, P_CONV | P_ORI | P_HV);
+  int v0[8] = {0, 1, 2, 3, 4, 5, 6, 7};
+  check_hv_matches_input(m, 0, v0);
+  check_hv_matches_input(m, 1, v);
+  v_witness("C16 vertices case end");
+}
+template <unsigned I> struct VertCase { static __attribute__((noinline)) void run() { vert_case(I); } };
+extern "C" void harness_c16_verts() {
+  unsigned sel = v_nondet_below(VERT_CASES);
+  dispatch<VertCase, VERT_CASES>(sel);
+}
+
+// ---------------------------------------------------------------------------------------------------------------------
+// (5) inherited operations keep the shape and the convention of the surviving cells.  two-hex base; param 0 = deletion mode,
+//     1 = chunk, 2 = 1: collect_garbage() afterwards
+enum { OPS_CASES = 4, N_OPS_C16 = 12 };
+static const unsigned OPS_TABLE[N_OPS_C16][3] = {
+  {OP_DEL_C, 0, 0}, {OP_DEL_F, 1, 0}, {OP_SWAP_C, 0, 1}, {OP_SWAP_F, 1, 10},
+  {OP_DEL_C, 1, 0}, {OP_DEL_F, 0, 0}, {OP_DEL_F, 8, 0}, {OP_SWAP_F, 0, 5},
+  {OP_DEL_E, 0, 0}, {OP_DEL_V, 0, 0}, {OP_SWAP_E, 0, 19}, {OP_SWAP_V, 0, 11}};
+static __attribute__((noinline)) void ops_case(unsigned i) {
+  unsigned mode = v_param(0), idx = v_param(1) * OPS_CASES + i;
+  if (idx >= N_OPS_C16) return;
+  HexK m;
+  set_mode(m, mode);
+  build_hex_base(m, HB_HEX2);
+  if (m.n_cells() != 2) return;
+  apply_op(m, OPS_TABLE[idx][0], OPS_TABLE[idx][1], OPS_TABLE[idx][2]);
+  if (v_param(2)) m.collect_garbage();
+  check_hex_all(m, P_CONV | P_ORI | P_HV);
+  v_witness("C16 ops case end");
+}
+template <unsigned I> struct OpsCase { static __attribute__((noinline)) void run() { ops_case(I); } };
+extern "C" void harness_c16_ops() {
+  unsigned sel = v_nondet_below(OPS_CASES);
+  dispatch<OpsCase, OPS_CASES>(sel);
+}
+
+// ---------------------------------------------------------------------------------------------------------------------
+// (6) the static orientation algebra for every pair of 8-bit arguments: orthogonal_orientation is the cross product of the signed axes
+//     (XF x YF = ZF, the handedness fixed by the layout "first halfface's halfedges meet 2,4,3,5"), opposite_orientation flips the side
+extern "C" void harness_c16_orient_static() {
+  unsigned char o1 = v_nondet_u8(), o2 = v_nondet_u8();
+  unsigned char r = HexK::orthogonal_orientation(o1, o2);
+  if (o1 >= 6 || o2 >= 6 || (o1 >> 1) == (o2 >> 1)) v_assert(r == HexK::INVALID, "C16 orthogonal_orientation is INVALID for invalid or same-axis arguments");
+  else {
+    int a1 = o1 >> 1, a2 = o2 >> 1, a3 = 3 - a1 - a2;
+    bool cyclic = (a2 == (a1 + 1) % 3);                       // x*y, y*z, z*x are positive
+    bool neg = ((o1 & 1) != 0) != ((o2 & 1) != 0);
+    if (!cyclic) neg = !neg;
+    v_assert(r == (unsigned char)(2 * a3 + (neg ? 1 : 0)), "C16 orthogonal_orientation(o1,o2) == cross product of the signed axes");
+  }
+  if (o1 < 6) {
+    v_assert(HexK::opposite_orientation(o1) == (o1 ^ 1), "C16 opposite_orientation flips front/back on the same axis");
+    v_assert(HexK::orthogonal_orientation(o1, HexK::opposite_orientation(o1)) == HexK::INVALID, "C16 an orientation and its opposite have no orthogonal orientation");
+  }
+  v_witness("C16 orientation algebra end");
 }
